@@ -85,8 +85,10 @@ static void shim_init(void) {
 }
 
 static int under_roots(const char *abs) {
-    for (int i = 0; i < nroots; i++)
+    for (int i = 0; i < nroots; i++) {
+        if (root_len[i] == 1 && roots[i][0] == '/') return abs[0] == '/';       /* root "/" = everything */
         if (strncmp(abs, roots[i], root_len[i]) == 0 && (abs[root_len[i]] == '/' || abs[root_len[i]] == 0)) return 1;
+    }
     return 0;
 }
 
